@@ -123,13 +123,15 @@ PROPS = {
         "Coq proof + exact-integer oracle"),
     "C18_range": _part(
         ["Props.RangeExtra:C18_range", "Props.C02:C02_roundtrip,C02_empty,C02_exhausted_empty"],
-        [("fam_range", "gen_roundtrip", 152, 6000), ("fam_range", "gen_carry", 100, 4000)],
+        [("fam_range", "gen_roundtrip", 152, 6000), ("fam_range", "gen_carry", 100, 4000),
+         ("fam_range", "gen_clear", 60, 3000)],
         "range encoder size query followed by an export; decoder exhaustion queries",
         "C18_range_num_words / _num_bits / _is_empty / _not_exhausted and C02_roundtrip (maybe_exhausted after the "
         "last symbol).", 'Range coder part: theorems about Model/Range.v (machine level, wrapping SB-bit arithmetic, six modelled panic sites proved unreachable) refined to the exact big-number spec Model/RangeSpec.v; messages shorter than 2^64 symbols (usize counter of held-back words). No axioms.', "Coq proof + correspondence"),
     "C20_range": _part(
         ["Props.C02:C02_encoder_refines,C02_decoder_refines"], [("fam_range", "gen_garbage", 100, 4000),
-                                                                 ("fam_range", "gen_carry", 100, 4000)],
+                                                                 ("fam_range", "gen_carry", 100, 4000),
+                                                                 ("fam_range", "gen_clear", 40, 2000)],
         "range coder case reaching a modelled panic site's boundary",
         "C02_encoder_refines / C02_decoder_refines: none of the six modelled panic / overflow sites of queue.rs is "
         "reachable from new() / from_compressed().", 'Range coder part: theorems about Model/Range.v (machine level, wrapping SB-bit arithmetic, six modelled panic sites proved unreachable) refined to the exact big-number spec Model/RangeSpec.v; messages shorter than 2^64 symbols (usize counter of held-back words). No axioms.', "Coq proof + debug-build correspondence"),
